@@ -44,6 +44,8 @@ def _line(maxlen):
     return st.one_of(
         st.just(""),
         st.sampled_from([":type <<P0>>:", ":param <<P0>>:", ":type <<P0>>: ", ":type <<P0>>: given", ":returns:"]),
+        # the text of the doccomment's own opening line, again, alone or at the end of a body line
+        st.sampled_from(["<<HDR>>", "Files are tagged with <<HDR>>", "<<HDR>> once more", "#[[[", "#]", "#[[[ <<HDR>>"]),
         body,
         st.builds(lambda a, b, c: a + b + c, start, body, tail),
         st.builds(lambda a, b, c: a + b + c, start, body, tail),
@@ -71,7 +73,7 @@ def unicode_doc(max_lines, maxlen):
 def strategy(tier):
     ml, mx = (8, 60) if tier == "quick" else (30, 200)
     doc = unicode_doc(ml, mx)
-    p = G.Profile(doc=doc, p_doc_mostly=True, max_items=6 if tier == "quick" else 8, depth=3, dangling=False, dups=True, weights={"class": 2},
+    p = G.Profile(doc=doc, p_doc_mostly=True, max_items=6 if tier == "quick" else 8, depth=3, dangling=False, dups=True, impl_doc=True, weights={"class": 2},
                   body_max=3, moddoc_indent=st.one_of(st.just(""), st.just(""), st.text(alphabet=" \t", max_size=12)))
     return st.fixed_dictionaries({"module": G.module(p), "layout": G.layout_choices(24)})
 
@@ -169,6 +171,12 @@ def check_text(module, text, res, tag=""):
             check_shared(d["lines"], d["marker"], ent_blocks[idx][2], 1 if it["k"] == "class" else 2, f"{it['k']} #{idx} (shared doc)")
             continue
         check_doc(d["lines"], d["marker"], ent_blocks[idx][2], level, f"{it['k']} #{idx}", extra)
+    # a doccomment on the definition that implements a member/test declaration: the definition is a documented command
+    for it, depth, parent in G.walk(module["items"]):
+        d = it["impl"].get("doc") if "impl" in it else None
+        if d and d.get("marker") and d["marker"] in by_marker:
+            idx, level = by_marker[d["marker"]]
+            check_doc(d["lines"], d["marker"], ent_blocks[idx][2], level, f"implementing definition of {it['k']} #{idx}")
 
 
 def nontrivial(module):
@@ -218,14 +226,18 @@ def prepare(module):
         d = it.get("doc")
         if d:
             p0 = it["impl"]["params"][0] if it["k"] == "member" and it["impl"]["params"] else "x"
-            d["lines"] = [l.replace("<<P0>>", p0) for l in d["lines"]]
+            d["lines"] = [l.replace("<<P0>>", p0).replace("<<HDR>>", "@module") for l in d["lines"]]
+        di = it["impl"].get("doc") if "impl" in it else None
+        if di:
+            di["lines"] = [l.replace("<<P0>>", "x").replace("<<HDR>>", "@module") for l in di["lines"]]
         if it["k"] == "option" and d and d.get("marker") and int("".join(ch for ch in d["marker"] if ch.isdigit()) or 0) % 3 == 0:
             # the help string repeats the doccomment word for word
             words = " ".join(l.strip() for l in d["lines"] if l.strip())
             if words and '"' not in words and "\\" not in words and "$" not in words and ";" not in words:
                 it["help"] = '"' + words + '"'
     if mod.get("moddoc"):
-        mod["moddoc"]["lines"] = [l.replace("<<P0>>", "x") for l in mod["moddoc"]["lines"]]
+        hdr = "@module" + (" " + mod["moddoc"]["name"] if mod["moddoc"].get("name") else "")
+        mod["moddoc"]["lines"] = [l.replace("<<P0>>", "x").replace("<<HDR>>", hdr) for l in mod["moddoc"]["lines"]]
     return mod
 
 
@@ -238,6 +250,8 @@ def evaluate(case):
     res.labels += sorted(labels)
     if module.get("moddoc"):
         res.labels.append("module-doc")
+    if any("impl" in it and it["impl"].get("doc") for it, _, _ in G.walk(module["items"])):
+        res.labels.append("doc-on-implementing-definition")
     if any(it.get("doc") and it["doc"].get("shared") for it, _, _ in G.walk(module["items"])):
         res.labels.append("same-doc-on-class-and-member")
     if nt:
